@@ -452,3 +452,32 @@ def passphrase_chain(ctx):
                 else:
                     ctx.unsure('keys:%s: passphrase passes through unrecognised call %s' % (q, f))
     ctx.floor(n, 4, 'scrypt calls fed by a passphrase parameter')
+
+
+@PROP.obligation('C15.history-free', canaries=[
+    mut.replace_expr('keys', 'Key.encrypt', 'self.address()', 'self.address_obj.address', 'BIP38 salt taken from whatever address was asked for last'),
+])
+def history_free(ctx):
+    """Key.encrypt salts with the address of the key in the form its flag byte announces. Key._address_obj holds the address for the
+    arguments of the LAST address(...) call (uncompressed form, other prefix, ...); only address(), which validates it against its
+    arguments, may read it - no other method of Key / HDKey reads the memo or the address_obj property that hands it out."""
+    from .common_cache import history_reads as run
+    run(ctx, 'keys', [['Key', 'HDKey']], 'Key / HDKey',
+        'after k.address_uncompressed() the encrypted key carries flag e0 (compressed) but the address hash and scrypt salt of the uncompressed address: not the BIP38 value, other implementations refuse it')
+    enc = ctx.repo.func('keys:Key.encrypt')
+    calls = [c for c in ast.walk(enc) if isinstance(c, ast.Call) and norm(c.func) == 'bip38_encrypt']
+    ctx.floor(len(calls), 1, 'bip38_encrypt call in Key.encrypt')
+    for c in calls:
+        ctx.saw('Key.encrypt -> %s' % norm(c)[:110])
+
+
+@PROP.obligation('C15.fixed-width', canaries=[
+    mut.replace_expr('keys', 'bip38_decrypt', "(int.from_bytes(aes.decrypt(encrypted_half_1), 'big') ^ int.from_bytes(encrypted_seed_b[:16], 'big')).to_bytes(16, 'big')",
+                     "(lambda v: v.to_bytes((v.bit_length() + 7) // 8, 'big'))(int.from_bytes(aes.decrypt(encrypted_half_1), 'big') ^ int.from_bytes(encrypted_seed_b[:16], 'big'))", 'seedb rebuilt without its leading zero bytes'),
+])
+def fixed_width(ctx):
+    """BIP38 fields are fixed width (seedb 24 bytes, factors and halves 16 / 32 bytes): every int.to_bytes in the BIP38 functions uses a
+    width that does not depend on the value converted."""
+    from .common_width import fixed_width as run
+    run(ctx, ['keys:bip38_decrypt', 'keys:bip38_encrypt', 'keys:bip38_intermediate_password', 'keys:bip38_create_new_encrypted_wif'],
+        'a seedb / factor that starts with a zero byte (1 in 256 keys) is hashed over fewer bytes: the right passphrase is refused (or another key is produced)', 8)
